@@ -1290,13 +1290,13 @@ def main():
         results.append(stream_routing_partial(run, zones, run.n(40, 1500), only))
         run.log("routing_partial done")
     if st in (None, "fit_bins"):
-        results.append(stream_fit_bins(run, run.n(60, 3000), only))
+        results.append(stream_fit_bins(run, run.n(60, 1500), only))
         run.log("fit_bins done")
     if st in (None, "fit_api"):
-        results.append(stream_fit_api(run, run.n(5, 150), only))
+        results.append(stream_fit_api(run, run.n(5, 60), only))
         run.log("fit_api done")
     if st in (None, "occupancy_rule"):
-        results.append(stream_occupancy_rule(run, run.n(16, 600), only))
+        results.append(stream_occupancy_rule(run, run.n(16, 300), only))
         run.log("occupancy_rule done")
     if st in (None, "fit"):
         for k in range(1 if only or run.quick() else 10):
